@@ -27,6 +27,7 @@ type redisModel struct {
 	entries  []*redisEntry
 	failNext value // bool | symBool: calls fail while set
 	calls    int
+	scripts  int
 	writes   int
 	noTTLWrites int
 	log      []string
@@ -479,6 +480,7 @@ func init() {
 			return tuple{iface{}, e}
 		}
 		src := scriptSource(a[2])
+		m.scripts++
 		keys := flattenArgs(r, variadic(a[3]))
 		argv := flattenArgs(r, variadic(a[4]))
 		res, ek := m.runScript(src, keys, argv)
@@ -570,6 +572,7 @@ func init() {
 		return nil
 	}
 	rtTable["RedisCalls"] = func(fr *frame, a []value) value { return fr.i.run.redisModel().calls }
+	rtTable["RedisScriptRuns"] = func(fr *frame, a []value) value { return fr.i.run.redisModel().scripts }
 	rtTable["RedisWrites"] = func(fr *frame, a []value) value { return fr.i.run.redisModel().writes }
 	rtTable["RedisPersistentWrites"] = func(fr *frame, a []value) value { return fr.i.run.redisModel().noTTLWrites }
 	rtTable["RedisKeys"] = func(fr *frame, a []value) value {
